@@ -237,10 +237,13 @@ type witness struct {
 
 var diffFileRe = regexp.MustCompile(`(?m)^diff --git a/(\S+) b/(\S+)$`)
 
-// overlayFor applies a unified diff to copies of the files it names (taken from the
+// OverlayFor applies a unified diff to copies of the files it names (taken from the
 // current working tree) in a scratch directory and returns the result as an overlay.
 // /repo itself is never written.
-func overlayFor(repo, patchPath string, reverse bool) (map[string][]byte, error) {
+func OverlayFor(repo, patchPath string, reverse bool) (map[string][]byte, error) {
+	if abs, err := filepath.Abs(patchPath); err == nil {
+		patchPath = abs
+	}
 	pb, err := os.ReadFile(patchPath)
 	if err != nil {
 		return nil, err
@@ -307,7 +310,7 @@ func runWitnesses(prop string, P *core.Program, R *core.Report) {
 			continue
 		}
 		res := map[string]any{"id": w.ID, "kind": w.Kind, "patch": w.Patch, "reverse": w.Reverse, "expect_rules": w.ExpectRules}
-		ov, err := overlayFor(P.Dir, filepath.Join(core.VerifDir(), w.Patch), w.Reverse)
+		ov, err := OverlayFor(P.Dir, filepath.Join(core.VerifDir(), w.Patch), w.Reverse)
 		if err != nil {
 			stale++
 			res["result"] = "stale"
